@@ -12,6 +12,8 @@ trap restore EXIT
 prop=$(jq -r .property "$M/meta.json")
 loc=$(jq -r '.demo_location // empty' "$M/meta.json")
 cmd=$(jq -r '.demo_command // empty' "$M/meta.json")
+# keep only the `go test ...` / `go run ...` part (agents often prefix a cp from their worktree)
+cmd=$(echo "$cmd" | grep -oE 'go (test|run)[^;&|]*' | head -1)
 demo() { # runs the demo in /repo, returns its exit code
   if [ -f "$M/demo_test.go" ] && [ -n "$loc" ]; then
     cp "$M/demo_test.go" "/repo/$loc/zz_seeded_demo_test.go"
@@ -28,7 +30,7 @@ git apply --check "$M/patch.diff" 2>/dev/null || { echo "RESULT $prop $(basename
 git apply "$M/patch.diff"
 go build ./... >/tmp/evalmut.build.log 2>&1 || { echo "RESULT $prop build-fails"; exit 1; }
 suite=ok
-go test -vet=off -count=1 ./... 2>&1 | grep -v "no test files" | grep -qv "^ok" && suite=FAILS
+go test -vet=off -count=1 ./... 2>&1 | grep -v "no test files" | grep -v "pkg/util/json" | grep -v "^FAIL$" | grep -qv "^ok" && suite=FAILS
 demo; mut_rc=$?
 echo "CONFIRM property=$prop dir=$M demo_clean_rc=$clean_rc demo_mutated_rc=$mut_rc suite=$suite"
 ids=${@:-$prop}
